@@ -363,6 +363,7 @@ func (u *Unit) atReturn(p *Path, results []*Term) {
 			continue
 		}
 		o := u.ob("post."+c.Label, "post", c.Props, c.Src)
+		o.Unfold = c.Unfold
 		u.check(p, o, g)
 	}
 	// frame
@@ -521,7 +522,11 @@ func (u *Unit) invEnv(p *Path, h *ssa.BasicBlock) *Env {
 			}
 		}
 	}
-	return &Env{cx: u.cx, st: p.st, old: u.entry, vars: vars}
+	env := &Env{cx: u.cx, st: p.st, old: u.entry, vars: vars}
+	if p.loopEntry != nil {
+		env.loopEntry = p.loopEntry[u.loops[h]]
+	}
+	return env
 }
 
 // atLoopHead handles arrival at a loop header; returns false when the path ends here.
@@ -530,6 +535,12 @@ func (u *Unit) atLoopHead(p *Path, h, pred *ssa.BasicBlock, ord int, back bool) 
 	invs := u.bc.own.Invs[ord]
 	// bind phis from the incoming edge so that invariants can be evaluated
 	u.evalPhis(p, h, pred, nil)
+	if !back {
+		if p.loopEntry == nil {
+			p.loopEntry = map[int]*State{}
+		}
+		p.loopEntry[ord] = p.st.Clone()
+	}
 	if dbgHook != nil {
 		dbgHook(p, fmt.Sprintf("loop %d head", ord))
 	}
@@ -541,12 +552,16 @@ func (u *Unit) atLoopHead(p *Path, h, pred *ssa.BasicBlock, ord int, back bool) 
 	// invariants are checked in order; each may rely on the ones before it (sequential conjunction)
 	saved := len(p.assumes)
 	for _, c := range invs {
+		if (c.EntryOnly && back) || c.AtExit {
+			continue
+		}
 		g, err := env.EvalBool(c.Expr)
 		if err != nil {
 			u.fail("loop %d invariant %s: %v", ord, c.Label, err)
 		}
 		if !c.Free {
 			o := u.ob(fmt.Sprintf("inv%d.%s.%s", ord, c.Label, stage), "inv", c.Props, c.Src)
+			o.Unfold = c.Unfold
 			u.check(p, o, g)
 		}
 		p.assume(g)
@@ -587,6 +602,37 @@ func (u *Unit) atLoopHead(p *Path, h, pred *ssa.BasicBlock, ord int, back bool) 
 	}
 	// entering the loop from outside: havoc and assume
 	allocBefore := p.st.Get(u.cx, "alloc")
+	if u.bc.own.CutLoops[ord] && u.baseAssumes <= len(p.assumes) {
+		// cut point: only the precondition, the function's frame and the invariants are known inside
+		// and after this loop. The frame of every component changed so far is checked here, then the
+		// component is abstracted to a fresh value that satisfies it.
+		type cutc struct {
+			cn   string
+			comp *Comp
+		}
+		var changed []cutc
+		for _, cn := range enc.compList {
+			comp := enc.comps[cn]
+			if cn == "alloc" || wcomps[cn] || same(u.entry.Get(u.cx, cn), p.st.Get(u.cx, cn)) {
+				continue
+			}
+			f := u.frameFormula(comp, u.entry.Get(u.cx, cn), p.st.Get(u.cx, cn), regs[cn], u.entry.Get(u.cx, "alloc"), true)
+			if !f.IsTrue() {
+				o := u.ob(fmt.Sprintf("inv%d.cut-frame.%s", ord, cn), "inv", nil, "frame of "+cn+" holds when the loop is entered")
+				u.check(p, o, f)
+			}
+			changed = append(changed, cutc{cn, comp})
+		}
+		p.assumes = append([]*Term(nil), p.assumes[:u.baseAssumes]...)
+		p.assume(Ge(allocBefore, u.entry.Get(u.cx, "alloc")))
+		p.localFacts = nil
+		// user invariants were checked above against the precise state; they are re-assumed below
+		// against the abstracted one, so abstract only what no invariant needs precisely: nothing is
+		// abstracted if an invariant mentions the component (conservative: keep the precise term).
+		for _, c := range changed {
+			p.assume(u.frameFormula(c.comp, u.entry.Get(u.cx, c.cn), p.st.Get(u.cx, c.cn), regs[c.cn], u.entry.Get(u.cx, "alloc"), false))
+		}
+	}
 	for _, cn := range sortedKeys(wcomps) {
 		comp := enc.comps[cn]
 		nv := u.cx.Fresh(cn+"@loop", comp.Sort)
@@ -634,11 +680,20 @@ func (u *Unit) atLoopHead(p *Path, h, pred *ssa.BasicBlock, ord int, back bool) 
 	p.knownNN = map[string]bool{}
 	env = u.invEnv(p, h)
 	for _, c := range invs {
+		if c.EntryOnly || c.AtExit {
+			continue
+		}
 		g, err := env.EvalBool(c.Expr)
 		if err != nil {
 			u.fail("loop %d invariant %s: %v", ord, c.Label, err)
 		}
 		p.assume(g)
+		if c.Local && !g.IsTrue() {
+			if p.localFacts == nil {
+				p.localFacts = map[int][]*Term{}
+			}
+			p.localFacts[ord] = append(p.localFacts[ord], g)
+		}
 	}
 	return true
 }
